@@ -1,6 +1,6 @@
 (** C10 - Interaction-list files replay the event stream and round-trip presence. *)
 From DynVerif Require Import Base Graph Derived Spec Annotate IO.
-From DynVerif.proofs Require Import CoreInv C01Facts QueryFacts LogInv DerivedFacts IOFacts ReplayFacts LogRead TextRoundTrip.
+From DynVerif.proofs Require Import CoreInv C01Facts QueryFacts LogInv DerivedFacts IOFacts ReplayFacts LogRead TextRoundTrip StreamRoundTrip.
 From Coq Require Import Sorting.Sorted.
 
 (** write_interactions emits exactly the events of stream_interactions(), as rows (u, v, op, t), in
@@ -80,6 +80,28 @@ Theorem C10_roundtrip_partial : forall g, GoodG g -> InvLog g -> all_closed g ->
             forall u v tau, has_interaction H u v (Some tau) = has_interaction g u v (Some tau).
 Proof. exact interactions_roundtrip. Qed.
 Print Assumptions C10_roundtrip_partial.
+(** ... and THE SAME STREAM, event for event and in the same order (one witness carries both); the event log of the
+    graph read back is the written stream itself *)
+Theorem C10_stream_roundtrip : forall g, GoodG g -> InvLog g -> all_closed g ->
+  exists H, parse_interactions (g_dir g) (gen_interactions g) = RdOk H /\ stream H = stream g /\
+            forall u v tau, has_interaction H u v (Some tau) = has_interaction g u v (Some tau).
+Proof. exact stream_presence_roundtrip. Qed.
+Print Assumptions C10_stream_roundtrip.
+Theorem C10_roundtrip_log : forall g, GoodG g -> InvLog g -> all_closed g ->
+  exists H, parse_interactions (g_dir g) (gen_interactions g) = RdOk H /\
+            g_dir H = g_dir g /\ g_rem H = true /\ g_events H = stream g.
+Proof. exact roundtrip_log. Qed.
+Print Assumptions C10_roundtrip_log.
+(** the stream half needs no [all_closed]: for EVERY good graph (hence every reachable one, [C10_reachable]) the file
+    is read back without error and the graph read back has the same stream; its event log is the written stream *)
+Theorem C10_stream_roundtrip_all : forall g, GoodG g -> InvLog g ->
+  exists H, parse_interactions (g_dir g) (gen_interactions g) = RdOk H /\ stream H = stream g /\
+            g_dir H = g_dir g /\ g_rem H = true /\ g_events H = stream g.
+Proof.
+  intros g Hg Hl. destruct (roundtrip_log_all g Hg Hl) as (H & Hp & Hd & Hr & He).
+  exists H. repeat split; try assumption. now apply stream_of_stream.
+Qed.
+Print Assumptions C10_stream_roundtrip_all.
 (** the hypotheses hold of every reachable removal-enabled graph, except [all_closed] *)
 Theorem C10_reachable : forall dir cs, GoodG (run_calls (G0 dir) cs) /\ InvLog (run_calls (G0 dir) cs).
 Proof.
